@@ -22,7 +22,7 @@ uint8_t* g_guard_hit; uint32_t g_n_guards;
 const uintptr_t* g_pcs_beg; const uintptr_t* g_pcs_end;
 
 static const uintptr_t kBase[A_COUNT] = {0x7e0000000000ull, 0x7e1000000000ull, 0x7e2000000000ull};
-static const size_t kSize[A_COUNT] = {32u << 20, 16u << 20, 96u << 20};
+static const size_t kSize[A_COUNT] = {32u << 20, 64u << 20, 96u << 20};
 static const char* kArenaName[A_COUNT] = {"text", "obj", "heap"};
 
 static std::unordered_map<uint32_t, uint32_t> g_blk_at;               // heap offset -> block index
